@@ -151,9 +151,24 @@ func (g *PredGen) Atom(depth int) *Node {
 			}
 			op := cmpS[r.Intn(len(cmpS))]
 			if op == "~=" {
-				b = Str(rePool[r.Intn(len(rePool))])
 				if g.NoRegex {
 					continue
+				}
+				switch r.Intn(4) {
+				case 0:
+					// row-dependent pattern (values of most store families are valid patterns)
+					if a.K == KValue {
+						b = Key()
+					} else {
+						b = Value()
+					}
+				case 1:
+					b = Bin("+", Str("^"), Value())
+					if a.K == KValue {
+						b = Bin("+", Str("^"), Key())
+					}
+				default:
+					b = Str(rePool[r.Intn(len(rePool))])
 				}
 			}
 			return Bin(op, a, b)
